@@ -131,6 +131,22 @@ theorem C18_flatten_document_order (g : Graph) (root : Dict) (f : Forest)
   have := loop_fuel_det (classify g) _ _ _ _ _ _ _ hr' hf
   rw [hr, this]
 
+/-- DOCUMENT ORDER WITH THE CAP.  Without any bound on the number of leaves: the flat index is
+the document-order leaf list cut after MAX_PAGES entries ("a truncated list"). -/
+theorem C18_flatten_document_order_truncated (g : Graph) (root : Dict) (f : Forest)
+    (hroots : resolveKids g root.kids = f.roots) (hag : Agrees (classify g) f)
+    (hnd : f.ids.Nodup) : flatten g root = some (f.leaves.take MAX_PAGES) := by
+  have hsome := C18_flatten_terminates g root
+  obtain ⟨r, hr⟩ := Option.isSome_iff_exists.mp hsome
+  have hf := loop_forest_take (classify g) f 0 [] [] [] (f.leaves.take MAX_PAGES) hag hnd (by simp)
+    (by simp) (by simp [loop])
+  simp only [List.append_nil, Nat.zero_add] at hf
+  have hr' := hr
+  unfold flatten at hr'
+  simp only [hroots] at hr'
+  have := loop_fuel_det (classify g) _ _ _ _ _ _ _ hr' hf
+  rw [hr, this]
+
 /-- the same for any classification function (e.g. with the model of type inference swapped) -/
 theorem C18_loop_document_order (cls : Nat → Cls) (f : Forest) (fuel : Nat)
     (hag : Agrees cls f) (hnd : f.ids.Nodup) (hmax : f.leaves.length ≤ MAX_PAGES)
@@ -242,6 +258,22 @@ theorem C18_create_page_fields (g : Graph) (id : Nat) (d : Dict) (inh : Inh) (p 
 
 example : createPage [] 5 { mb := some (.nums [some 2, some 4, some 6, some 8]), rot := some (.int 450) } {} =
     some { id := 5, mediaBox := [2, 4, 6, 8], cropBox := none, rotation := 450, resources := none } := by
+  decide
+
+/- FULL (false of the current code — finding C18-F2): the effective value of MediaBox / CropBox /
+   Rotate is the nearest ancestor-or-self's entry *after resolving an indirect reference*
+   (ISO 32000-1 §7.3.10 lets any value be indirect).  `get_rectangle` / `get_integer` look only
+   at direct values: an indirect `/MediaBox 5 0 R` counts as "set" (it shadows the ancestors)
+   but reads as absent, so the page gets the Letter default; an indirect /Rotate reads as 0.
+   `C18_inherit_nearest` above is the part that holds: WHICH entry is used is right. -/
+
+/-- WITNESS (C18-F2): MediaBox and Rotate given as references to `[0 0 100 200]` and `90` —
+the page comes out as Letter, unrotated. -/
+theorem C18_witness_indirect_attribute :
+    let g : Graph := [(5, .raw (.nums [some 0, some 0, some 200, some 400])), (6, .raw (.int 90))]
+    let page : Dict := { ty := .page, mb := some (.ref 5), rot := some (.ref 6) }
+    createPage g 3 page {} =
+      some { id := 3, mediaBox := [0, 0, 1224, 1584], cropBox := none, rotation := 0, resources := none } := by
   decide
 
 /-! ## Part C — the two page counts -/
